@@ -4,6 +4,7 @@ package c09
 
 import (
 	"bytes"
+	"crypto/ecdh"
 	"fmt"
 	"slices"
 	"strings"
@@ -47,7 +48,8 @@ func spec(key echx.KeyPair, aead uint16, share int) echx.Spec {
 
 // run returns the observable outcome of one configuration.
 func run(keys []ech.Key, target echx.KeyPair, aead uint16, retry bool, variant string) (outcome string, panicked any) {
-	return runSplit(keys, target, aead, retry, -1, variant)
+	// a copy of the list: the single-option run rotates its slice away after the handshake started (see below)
+	return runSplit(slices.Clone(keys), target, aead, retry, -1, variant)
 }
 
 // variants of the hello: "" (conforming), "sni-of-another-key" (sealed consistently, but the outer server name is the public
@@ -99,6 +101,12 @@ func runSplit(keys []ech.Key, target echx.KeyPair, aead uint16, retry bool, spli
 	if _, err, p := sess.BackendSend(echx.HRRRecord(b1.Outer.SessionID)); p != nil || err != nil {
 		return out + fmt.Sprintf(" hrr-write-error=%v", err), p
 	}
+	if split < 0 {
+		// the server rotates its key slice in place once the connection is set up: the Conn works on its own copy of the list
+		for i := range keys {
+			keys[i], snapshot[i] = ech.Key{Config: []byte("rotated-away")}, ech.Key{Config: []byte("rotated-away")}
+		}
+	}
 	if variant == "retry-seq2" {
 		b1.Sealer.Ctx.Seq = 2
 	}
@@ -114,6 +122,35 @@ func runSplit(keys []ech.Key, target echx.KeyPair, aead uint16, retry bool, spli
 	return out + fmt.Sprintf(" second=%s err=%s clientout=%x", sec, echx.ErrClass(rerr), sess.T.OutBytes()), nil
 }
 
+// p256Key builds an ECH key whose config names DHKEM(P-256, HKDF-SHA256) (KEM id 0x0010), config id 42, all suites.
+func p256Key() echx.KeyPair {
+	scalar := make([]byte, 32)
+	scalar[31] = 7
+	priv, err := ecdh.P256().NewPrivateKey(scalar)
+	if err != nil {
+		panic(err)
+	}
+	pub := priv.PublicKey().Bytes()
+	var c []byte
+	c = append(c, 42, 0x00, 0x10, byte(len(pub)>>8), byte(len(pub)))
+	c = append(c, pub...)
+	var cs []byte
+	for _, su := range echx.AllSuites {
+		cs = append(cs, byte(su.KDF>>8), byte(su.KDF), byte(su.AEAD>>8), byte(su.AEAD))
+	}
+	c = append(c, byte(len(cs)>>8), byte(len(cs)))
+	c = append(c, cs...)
+	c = append(c, byte(len(targetPublicName)+16), byte(len(targetPublicName)))
+	c = append(c, targetPublicName...)
+	c = append(c, 0, 0)
+	raw := append([]byte{0xfe, 0x0d, byte(len(c) >> 8), byte(len(c))}, c...)
+	info, rest, err := tlsref.ParseConfig(raw)
+	if err != nil || len(rest) != 0 {
+		panic(fmt.Sprint("c09: p256 config: ", err))
+	}
+	return echx.KeyPair{Label: "c09-P", Priv: priv, Cfg: info}
+}
+
 func variantOf(target string) string {
 	if _, v, ok := strings.Cut(target, ":"); ok {
 		return v
@@ -122,9 +159,9 @@ func variantOf(target string) string {
 }
 
 func Run(r *ev.Run) {
-	r.Rule("E1 exhaustive, differential: all ordered key lists of length 0..4 (with repetition) over the pool {T target (id 42), A other key same id same suites, B other key same id but suite list lacking the client's AEAD, C other id, D other id and other public name, E other key same id other public name, S T's own key pair in a second config with the same id and another public name}; T's config carries maximum_name_length 200 and a non-mandatory extension (not what the library's encoder would write) x 3 AEADs x {first hello, retried hello after HelloRetryRequest} x hello {encrypted to T, to a key U the server never holds, to T but with the outer server name of keys D/E, to T with the retried hello sealed at sequence number 2}; outcome(list) must equal outcome([T]) when T is in the list and outcome([]) otherwise; lists of 2-3 keys are also handed over as two WithKeys options at every split point, as sub-slices of one caller-owned array that must come back unmodified. distinct = distinct (list, aead, retry, target)")
+	r.Rule("E1 exhaustive, differential: all ordered key lists of length 0..4 (with repetition) over the pool {T target (id 42), A other key same id same suites, B other key same id but suite list lacking the client's AEAD, C other id, D other id and other public name, E other key same id other public name, S T's own key pair in a second config with the same id and another public name, P a DHKEM(P-256) key with the same id (valid for crypto/tls, not usable by this library)}; T's config carries maximum_name_length 200 and a non-mandatory extension (not what the library's encoder would write) x 3 AEADs x {first hello, retried hello after HelloRetryRequest} x hello {encrypted to T, to a key U the server never holds, to T but with the outer server name of keys D/E, to T with the retried hello sealed at sequence number 2}; outcome(list) must equal outcome([T]) when T is in the list and outcome([]) otherwise; lists of 2-3 keys are also handed over as two WithKeys options at every split point, as sub-slices of one caller-owned array that must come back unmodified. distinct = distinct (list, aead, retry, target)")
 	r.Assume("reference sender validated against crypto/tls (C03)", "all keys in a list are valid X25519 keys with well-formed configs")
-	pool := "TABCDES"
+	pool := "TABCDESP"
 	var lists []string
 	enum.Sequences(len(pool), 4, func(seq []int) {
 		var b strings.Builder
@@ -137,7 +174,7 @@ func Run(r *ev.Run) {
 		// quick: all lists of length <=3 (156), and length-4 lists containing T
 		var l2 []string
 		for _, l := range lists {
-			if len(l) <= 3 || strings.Contains(l, "T") && strings.ContainsAny(l, "ABES") {
+			if len(l) <= 3 || strings.Contains(l, "T") && strings.ContainsAny(l, "ABESP") {
 				l2 = append(l2, l)
 			}
 		}
@@ -173,6 +210,8 @@ func Run(r *ev.Run) {
 			'T': echx.NewKeyOpt("c09-T", 42, echx.AllSuites, targetPublicName, 200, []byte{0x12, 0x34, 0, 2, 0xaa, 0xbb}),
 			// S: T's key pair in a SECOND, different config with the same id (key rotation that kept the key, or a second public name)
 			'S': echx.NewKey("c09-T", 42, echx.AllSuites, "second-public.example"),
+			// P: a valid ECH key of ANOTHER KEM (DHKEM(P-256), which crypto/tls serves and this library cannot use), same id and suites
+			'P': p256Key(),
 			'A': echx.NewKey("c09-A", 42, echx.AllSuites, targetPublicName),
 			'B': echx.NewKey("c09-B", 42, others, targetPublicName),
 			'C': echx.NewKey("c09-C", 43, echx.AllSuites, targetPublicName),
@@ -220,7 +259,11 @@ func Run(r *ev.Run) {
 		ks := mk(c.AEAD)
 		var keys []ech.Key
 		for j := 0; j < len(c.List); j++ {
-			keys = append(keys, ks[c.List[j]].Key())
+			k := ks[c.List[j]].Key()
+			// the target (and S, C) are "retired" keys that are no longer advertised as retry configs: SendAsRetry plays no
+			// part in whether a hello is accepted
+			k.SendAsRetry = !strings.ContainsRune("TSC", rune(c.List[j]))
+			keys = append(keys, k)
 		}
 		if len(keys) == 0 {
 			keys = echx.Keys(ks['C'])[:0]
